@@ -60,6 +60,15 @@ type c11txn struct {
 
 func runC11(s *kernel.Sim) {
 	tp := s.Tape
+	// lock attempts that do not wait (TryLock / TryRLock) may fail as if another
+	// goroutine - a pinning transaction, a reload, a vacuum pass - held the lock
+	s.FaultOn = func(point string, _ []string) error {
+		if point == "trylock" && tp.Chance(1, 3) {
+			s.FaultFired("non_waiting_lock_attempt_met_a_held_lock")
+			return fmt.Errorf("contended")
+		}
+		return nil
+	}
 	nOps := tp.Range(6, 40)
 	concP := tp.Choose(4)
 	siteOn, density := lockSites(tp)
